@@ -26,7 +26,7 @@ pub fn check() -> Check {
                a clean run counts the sink calls N; then EVERY call index k < N is failed once and, separately, permanently (2N runs per scenario), after which the sink is repaired - at once, or only after 1-3 further input bytes have arrived (the outage may end inside a key's encoding) - and each of five suffixes ending in Enter (one recalling history, one starting with a multi-byte character) is typed. Proptest-generated sessions with a random k extend the corpus. \
                Oracle: no panic; the API call during which the sink raised SinkErr(k) returns Err(SinkErr(k')) with k' raised in that call, and calls during which nothing was raised return Ok; the edited line (hook) is the line before the call, the clean-run line after it, or empty, and well-formed UTF-8; \
                the suffix behaves like an ideal editor on the observed line, a recall in it shows only a line the user submitted, and its Enter dispatches exactly the reference tokens of that line. \
-               Non-trivial = the failure lands inside handler output, help output, error output, a redraw or a completion echo and is not the first sink call of that API call; distinct by (scenario, k, mode).",
+               Non-trivial = the failure lands inside handler output, help output, error output, a redraw or a completion echo and is not the first sink call of that API call; distinct by (scenario, k, mode). The error a failing sink call reports takes every ErrorKind embedded_io names (18): the corpus fails every call once and for good with each kind, generated runs draw one. The session command group has a command with an optional sub-command whose help is asked for in five ways.",
         assumptions: &[
             "single failure points (one call failed once, or all calls from k on until repair, the repair coming right after the failing call or up to 3-4 input bytes later), not arbitrary failure patterns",
             "what the terminal shows after a failed write is left open; only the returned error, the edited line and later dispatches are judged",
